@@ -55,5 +55,18 @@ GenericProgs == {[name |-> "generic-" \o k,
                                          [] k = "recursive" -> "type G[T any] struct {\n\tNext *G[T]\n\tV T\n}\n" \o Conv("", "Conv(source G[int]) G[int]")
                                          [] k = "constraint" -> "type Num interface{ ~int | ~int64 }\ntype G[T Num] struct{ V T }\n" \o Conv("", "Conv(source G[int]) G[int64]"))] :
                     k \in {"inst", "inst2", "nested", "recursive", "constraint"}}
-Progs == SelfProgs \cup MutualProgs \cup SeenProgs \cup GenericProgs
+\* a converter interface that is itself generic
+GenericConvProgs == {[name |-> "generic-converter-" \o k,
+                      src |-> Hdr("") \o "type G[T any] struct{ V T }\n\n// goverter:converter\ntype C[T any] interface {\n\t" \o
+                              (CASE k = "param" -> "Conv(source T) T" [] k = "inst" -> "Conv(source G[T]) G[T]" [] k = "slice" -> "Conv(source []T) []T") \o "\n}\n"] :
+                        k \in {"param", "inst", "slice"}}
+\* update methods with update:ignoreZeroValueField over every kind of field type (the zero-value comparison must exist for each)
+ZeroFieldTypes == {"unsafe.Pointer", "uintptr", "complex128", "chan int", "func()", "interface{}", "any", "error", "[2]int", "[0]int", "struct{ X int }", "struct{}",
+                   "*int", "[]int", "map[string]int", "string", "bool", "float32", "rune", "NI", "NS", "NP"}
+UpdateZeroProgs == {[name |-> "update-zero-" \o ft \o "-" \o z \o (IF sk THEN "-skip" ELSE ""),
+                     src |-> "package p\n\nimport \"unsafe\"\n\nvar _ unsafe.Pointer\n\ntype NI int\ntype NS struct{ X []int }\ntype NP *int\n\ntype S struct{ F " \o ft \o " }\ntype T struct{ F " \o ft \o " }\n"
+                             \o "\n// goverter:converter\n// goverter:update:ignoreZeroValueField" \o z \o "\n" \o (IF sk THEN "// goverter:skipCopySameType\n" ELSE "")
+                             \o "type C interface {\n\t// goverter:update target\n\tConv(source S, target *T)\n}\n"] :
+                       ft \in ZeroFieldTypes, z \in {"", ":basic", ":struct", ":nillable"}, sk \in BOOLEAN}
+Progs == SelfProgs \cup MutualProgs \cup SeenProgs \cup GenericProgs \cup GenericConvProgs \cup UpdateZeroProgs
 =============================================================================
